@@ -23,8 +23,10 @@ import (
 	"errors"
 	"fmt"
 	"io"
+	"maps"
 	"net/http"
 	"net/url"
+	"slices"
 	"time"
 
 	"github.com/rs/zerolog"
@@ -186,10 +188,11 @@ func (e Endpoint) Hash() []byte {
 	hash.Write(stringx.ToBytes(e.URL))
 	hash.Write(stringx.ToBytes(e.Method))
 
+	// map iteration order is random: hash the headers in the order of their names
 	buf := bytes.NewBufferString("")
-	for k, v := range e.Headers {
+	for _, k := range slices.Sorted(maps.Keys(e.Headers)) {
 		buf.Write(stringx.ToBytes(k))
-		buf.Write(stringx.ToBytes(v))
+		buf.Write(stringx.ToBytes(e.Headers[k]))
 	}
 
 	hash.Write(buf.Bytes())
